@@ -65,9 +65,27 @@ def _can_handle(frame: FrameType) -> bool:
         for entry in _parse_exception_table(frame.f_code):
             if entry.start <= at < entry.end:
                 return True
+        if dis.opname[frame.f_code.co_code[at]] in ('FOR_ITER', 'SEND', 'END_ASYNC_FOR'):
+            # the end of an iteration: python reports the StopIteration of a python iterator in the looping frame and
+            # then swallows it itself
+            return True
     except Exception:
         pass
     return False
+
+
+def _is_bare_raise(frame: FrameType) -> bool:
+    """
+    Tell if the last thing the function did was a `raise` without an exception (re-raise what is being handled).
+
+    :param frame: the frame of the unwinding 'return' event
+    :return: True, if so
+    """
+    try:
+        code = frame.f_code.co_code
+        return dis.opname[code[frame.f_lasti]] == 'RAISE_VARARGS' and code[frame.f_lasti + 1] == 0
+    except Exception:
+        return False
 
 
 class CallbackContext(Location, ActionCallback):
@@ -93,6 +111,7 @@ class CallbackContext(Location, ActionCallback):
         # start with the exception that is already in flight.)
         in_flight = sys.exc_info()
         self.__raised = in_flight if in_flight[1] is not None and event == 'line' else None
+        self.__handled = None
 
     def at_location(self, event: str, file: str, line: int, function_name: str, frame: FrameType) -> bool:
         """
@@ -128,8 +147,14 @@ class CallbackContext(Location, ActionCallback):
         :param frame: the frame of the event
         :param arg: the arg from settrace
         """
-        if event == 'exception' and (self.__frame is None or frame is self.__frame):
+        if self.__frame is not None and frame is not self.__frame:
+            return
+        if event == 'exception':
             self.__raised = arg
+        elif event == 'line':
+            # what the function is handling on this line (python sends no event when that is raised again)
+            handled = sys.exc_info()
+            self.__handled = handled if handled[1] is not None else None
 
     def __called_from_registering_frame(self, frame: FrameType) -> bool:
         caller = frame.f_back
@@ -150,8 +175,11 @@ class CallbackContext(Location, ActionCallback):
         :return: True, to keep this callback until next match.
         """
         if event == 'return' and _is_unwinding(frame):
-            # the function does not return: an exception is leaving it
+            # the function does not return: an exception is leaving it - the last one we saw raised in it, unless it
+            # ends with a bare `raise`: then it is the one that was being handled there
             event, arg = 'exception', self.__raised
+            if self.__handled is not None and _is_bare_raise(frame):
+                arg = self.__handled
         for callback in self.__callbacks:
             try:
                 callback.process(ctx, event, frame, arg)
